@@ -139,11 +139,16 @@ def unifySyms (args : List UArg) : Option (List (Sym × List Nat)) :=
 /-- the chunks every argument is rechunked to: `chunkss[j] if a.shape[n] > 1 else a.shape[n]` -/
 def newChunks (chunkss : List (Sym × List Nat)) (a : UArg) : Option (List (List Nat)) :=
   if a.chunks.any List.isEmpty then some a.chunks
+  -- `Array.rechunk`: "don't rechunk if array is empty" (`x.ndim > 0 and all(s == 0 for s in x.shape)`)
+  else if !a.chunks.isEmpty && a.chunks.all (fun c => c.sum == 0) then some a.chunks
   else optAll ((a.ind.zip a.chunks).map fun p =>
-    if p.2.sum > 1 then
-      -- `a.rechunk(chunks)` validates the new chunks against the shape (ValueError otherwise)
-      (lookupSym chunkss p.1).bind fun c => if c.sum = p.2.sum then some c else none
-    else some [p.2.sum])
+    -- `chunkss[j] if a.shape[n] > 1 or sum(chunkss[j]) == a.shape[n] else a.shape[n]`: a length-one dimension stays a
+    -- single chunk only when it really is broadcast (the unified dimension is longer)
+    (lookupSym chunkss p.1).bind fun c =>
+      if p.2.sum > 1 || c.sum == p.2.sum then
+        -- `a.rechunk(chunks)` validates the new chunks against the shape (ValueError otherwise)
+        (if c.sum = p.2.sum then some c else none)
+      else some [p.2.sum])
 
 def unifyChunks (args : List UArg) : Option (List (Sym × List Nat) × List (List (List Nat))) := do
   let cs ← unifySyms args
